@@ -229,7 +229,9 @@ def execute(case, ctx):
             ctx.probe('multi_recipient')
         bs = ralgo.block_size(step['cipher'])
         faults = list(step['faults'])
-        if step.get('sweep') and len(enc) <= 420:
+        heavy = any(k == 'key' and R.cfg[w_]['alg'].startswith('rsa') or
+                    (k == 'key' and any(sk['alg'].startswith('rsa') for sk in R.cfg[w_]['subkeys'])) for k, w_ in recips)
+        if step.get('sweep') and len(enc) <= 420 and not heavy:
             ctx.probe('sweep_bits')
             faults += [{'kind': '_sweep', 'bitpos': i} for i in range(len(enc) * 8)]
         for f in faults:
